@@ -13,6 +13,7 @@ import Dalek.Driver.Fast
 import Dalek.Driver.Raw
 import Dalek.Driver.SelfTest
 import Dalek.Model.ConstCheck
+import Dalek.Driver.GenCheck
 
 namespace Dalek.Driver
 open Dalek.Spec Dalek.Model
@@ -379,6 +380,12 @@ def tableOp (raw : Bool) (radix P s : String) : M Resp := do
   let s ← if raw then rawNat sb else pure (leToNat sb % L)
   ok [ptOut (EPt.smul s Pp), ptOut Pp]
 
+def nonspecMapOfDigest (h : List UInt8) : Option EPt :=
+  let res := h.take 32
+  let sign := signBit res
+  let u := elligatorEncode (feFromBytes res)
+  (toEdwards u sign).map fun p => EPt.mulByPow2 3 (EPt.ofAffine p)
+
 def nonspecMap (msg : List UInt8) : Option EPt :=
   let h := sha512 msg
   let res := h.take 32
@@ -423,6 +430,11 @@ def edwardsOp (op : String) (args : List String) : M Resp := do
     match nonspecMap (← hexArg m) with
     | some p => ok [ptOut p]
     | none => pure Resp.none     -- unreachable: Elligator2 always lands on the curve
+  | "ed.nonspec_map_raw", [d] => do
+    -- `nonspec_map_to_curve::<D>` with a pass-through "digest" D whose 64-byte output is the given bytes
+    match nonspecMapOfDigest (← bytesN 64 d) with
+    | some p => ok [ptOut p]
+    | none => pure Resp.none
   | "ed.from_slice", [b] => do
     let b ← hexArg b
     if b.length == 32 then ok [hexEncode b] else pure Resp.err
@@ -601,6 +613,15 @@ def ed25519Op (legacy : Bool) (op : String) (args : List String) : M Resp := do
     let sigs ← (parseList sigs).mapM (bytesN 64)
     let vks ← (parseList vks).mapM (bytesN 32)
     okOrErr (Ed25519.verifyBatchWith ops legacy msgs sigs vks)
+  | "eds.batch_transcript", [msgs, sigs, vks] => do
+    let msgs ← (parseList msgs).mapM hexArg
+    let sigs ← (parseList sigs).mapM (bytesN 64)
+    let vks ← (parseList vks).mapM (bytesN 32)
+    -- the driver has to build the `VerifyingKey`s before it can call `verify_batch`
+    if vks.any fun v => (decompress v).isNone then return Resp.err
+    let log := Ed25519.batchTranscript msgs sigs vks
+    ok [fmtBool (Ed25519.verifyBatchWith ops legacy msgs sigs vks),
+        fmtList (log.map fun (l, m) => hexEncode l ++ ":" ++ hexEncode m)]
   | _, _ => badreq
 
 /-! ## serde, group -/
@@ -709,7 +730,7 @@ def handleLine (legacy : Bool) (line : String) : String :=
         | none => Resp.skip.toString
       else
         match handleOp legacy op args with
-        | .ok r => r.toString
+        | .ok r => GenCheck.reconcile op args r.toString
         | .error r => r.toString
     | _ =>
       match handleOp legacy op args with
